@@ -572,6 +572,17 @@ func looksLikeSQL(s string) bool {
 
 // CheckCallers: `calledonlyby f g`: every static call of fn in the loaded program sits in a function whose name contains
 // one of the listed names (a gate proved at the listed callers covers every use of the function).
+// labelledRequires: the labels of the preconditions written as requires[label] (the ones that carry part of a property)
+func labelledRequires(c *FuncContract) []string {
+	var out []string
+	for _, r := range c.Requires {
+		if r.Label != "" {
+			out = append(out, r.Label)
+		}
+	}
+	return out
+}
+
 func CheckCallers(P *Program, fn *ssa.Function, c *FuncContract) *FuncReport {
 	ex := NewExec(P)
 	ex.top = fn
@@ -609,11 +620,25 @@ func CheckCallers(P *Program, fn *ssa.Function, c *FuncContract) *FuncReport {
 						ok = true
 					}
 				}
-				o := &Obligation{Name: fmt.Sprintf("%s#callers[%d]", ex.fnName(fn), n), Kind: "sql.text",
-					Detail: "the function is used only by " + strings.Join(c.OnlyCallers, ", ") + " (found in " + name + ")",
-					Goal:   ex.p.Bool(ok), PC: ex.p.True(), Func: ex.fnName(fn), Props: c.Props, Pos: P.pos(in.Pos())}
-				ex.obls = append(ex.obls, o)
-				n++
+				if len(c.OnlyCallers) > 0 {
+					o := &Obligation{Name: fmt.Sprintf("%s#callers[%d]", ex.fnName(fn), n), Kind: "sql.text",
+						Detail: "the function is used only by " + strings.Join(c.OnlyCallers, ", ") + " (found in " + name + ")",
+						Goal:   ex.p.Bool(ok), PC: ex.p.True(), Func: ex.fnName(fn), Props: c.Props, Pos: P.pos(in.Pos())}
+					ex.obls = append(ex.obls, o)
+					n++
+				}
+				if labels := labelledRequires(c); len(labels) > 0 {
+					// a precondition that carries part of a property is checked where the caller is verified: a use from a
+					// function without a (proved) contract would leave it unchecked
+					cc2 := P.ContractFor(f)
+					// (used as a value, cc == nil, the eventual caller is unknown)
+					verified := cc != nil && cc2 != nil && !cc2.Trusted
+					o := &Obligation{Name: fmt.Sprintf("%s#guarded-callers[%d]", ex.fnName(fn), n), Kind: "sql.text",
+						Detail: "the precondition [" + strings.Join(labels, ", ") + "] is checked at every use: the using function must be under a proved contract (found in " + name + ")",
+						Goal:   ex.p.Bool(verified), PC: ex.p.True(), Func: ex.fnName(fn), Props: c.Props, Pos: P.pos(in.Pos())}
+					ex.obls = append(ex.obls, o)
+					n++
+				}
 			}
 		}
 		for _, a := range f.AnonFuncs {
